@@ -181,4 +181,75 @@ theorem accSparse_eq_workOf (pts : List Nat) (xs ys : List Int) (ptBytes dBytes 
     rw [← e1, p3]
     simp [listedFlags, hk]
 
+
+/-- a raw tuple with explicit points decodes to `dt`: same scalar, and the fast path leaves `dt`'s
+working buffer and flags (dischargeable with `accSparse_eq_workOf`) -/
+def SparseDecodes (points : List Iup.Pt) (sp : Option (List Nat)) (ts : GvarData.RawTuple × Int) (dt : DTuple) : Prop :=
+  ts.1.allPoints sp = false ∧
+  accSparse (ts.1.ptsAndDeltas sp).1 (ts.1.ptsAndDeltas sp).2 ts.2 (points.map ptFromI32) (points.map fun _ => false)
+    = some (dt.work points, dt.has)
+
+theorem decodedStep_none {points : List Iup.Pt} {ends : List Nat} : ∀ (l : List DTuple),
+    l.foldl (fun (o : Option (List Iup.Pt)) t => match o with
+      | none => none
+      | some d => (decodedContribution points ends t).map (stepAdd d)) none = none := by
+  intro l; induction l with
+  | nil => rfl
+  | cons a l ih => simpa using ih
+
+/-- the model's fold over sparse tuples is the fold over their decoded tuples -/
+theorem fold_sparse_eq_decoded (points : List Iup.Pt) (ends : List Nat) (sp : Option (List Nat)) :
+    ∀ (l : List (GvarData.RawTuple × Int)) (dts : List DTuple) (acc : List Iup.Pt),
+      l.length = dts.length → acc.length = points.length →
+      (∀ p ∈ l.zip dts, SparseDecodes points sp p.1 p.2) →
+      l.foldl (fun (o : Option (List Iup.Pt)) (ts : GvarData.RawTuple × Int) => match o with
+        | none => none
+        | some d => if ts.1.allPoints sp then accDense (ts.1.ptsAndDeltas sp).2 ts.2 d
+                    else simpleSparseTuple points ends ts.1 sp ts.2 d) (some acc)
+      = dts.foldl (fun (o : Option (List Iup.Pt)) t => match o with
+        | none => none
+        | some d => (decodedContribution points ends t).map (stepAdd d)) (some acc) := by
+  intro l
+  induction l with
+  | nil => intro dts acc hl _ _; cases dts with
+    | nil => rfl
+    | cons _ _ => simp at hl
+  | cons ts l ih =>
+    intro dts acc hl ha hd
+    cases dts with
+    | nil => simp at hl
+    | cons dt dts =>
+      obtain ⟨hsp, hacc⟩ := hd (ts, dt) (by simp)
+      simp only [List.foldl_cons, hsp, Bool.false_eq_true, if_false]
+      cases hstep : simpleSparseTuple points ends ts.1 sp ts.2 acc with
+      | none =>
+        -- then `interpolate_deltas` failed, and so does the decoded step
+        have : decodedContribution points ends dt = none := by
+          unfold simpleSparseTuple at hstep
+          simp only [hacc] at hstep
+          unfold decodedContribution
+          cases hri : readerInterpolate points dt.has ends (dt.work points) with
+          | none => rfl
+          | some out => simp [hri] at hstep
+        rw [this]
+        simp only [Option.map_none]
+        refine Eq.trans ?_ (decodedStep_none (points := points) (ends := ends) dts).symm
+        exact foldl_none (fun d (ts : GvarData.RawTuple × Int) => if ts.1.allPoints sp then accDense (ts.1.ptsAndDeltas sp).2 ts.2 d
+          else simpleSparseTuple points ends ts.1 sp ts.2 d) l
+      | some acc' =>
+        obtain ⟨c, e, hc⟩ := step_contribution points ends sp acc ts acc' ha (by simp [hsp, hstep])
+        unfold TupleContribution at hc
+        simp only [hsp, Bool.false_eq_true, if_false] at hc
+        obtain ⟨buf, has, out, h1, h2, h3⟩ := hc
+        rw [hacc] at h1
+        simp only [Option.some.injEq, Prod.mk.injEq] at h1
+        obtain ⟨rfl, rfl⟩ := h1
+        have hdc : decodedContribution points ends dt = some c := by
+          unfold decodedContribution; rw [h2, h3]; rfl
+        rw [hdc]
+        simp only [Option.map_some]
+        rw [← e]
+        exact ih dts acc' (by simpa using hl) (by rw [e, stepAdd_length]; exact ha)
+          (fun p hp => hd p (by simp [hp]))
+
 end FontVerif.GvarApply
